@@ -593,7 +593,13 @@ func newClient(conn net.Conn, cfg *config, logger log.Logger, options ...clientO
 	//
 	// 10 seconds is enough in most scenarios, maybe it could be configured in the future.
 	userTimeout := time.Second * 10
-	if err := syscall.SetTCPUserTimeout(conn, userTimeout); err != nil {
+	// the option is set on the socket: createClient passes the wrapper returned by
+	// netutil.Dial, for which SetTCPUserTimeout would silently do nothing.
+	sock := conn
+	if w, ok := conn.(*netutil.Conn); ok {
+		sock = w.Conn
+	}
+	if err := syscall.SetTCPUserTimeout(sock, userTimeout); err != nil {
 		return nil, err
 	}
 
